@@ -147,7 +147,7 @@ fn main() {
             let tier = args.get(3).cloned().unwrap_or_else(|| "quick".into());
             let cfg = batch_cfg(&id, &tier, &args);
             if id == "C14" {
-                let (corpus, pristine) = if tier == "thorough" { (30000, 64) } else { (6000, 16) };
+                let (corpus, pristine) = if tier == "thorough" { (30000, 64) } else { (8000, 16) };
                 std::process::exit(c14run::run_c14(&cfg, corpus, pristine));
             }
             dispatch!(id.as_str(), c => run_generic(c, &cfg, json!({})), {
